@@ -695,7 +695,20 @@ fn main() {
                         break;
                     }
                     running.lock().unwrap()[tid] = Some((i, std::time::Instant::now()));
-                    let mut r = run_job(&jobs[i]);
+                    // "own_thread": the job runs on a thread of its own, so that per-thread state of the code under
+                    // test (thread-local caches, counters) starts fresh: the job's first interpreter is the thread's first
+                    let own = jobs[i].get("own_thread").and_then(|x| x.as_bool()).unwrap_or(false);
+                    let mut r = if own {
+                        let job = jobs[i].clone();
+                        std::thread::Builder::new()
+                            .stack_size(stack_mb << 20)
+                            .spawn(move || run_job(&job))
+                            .unwrap()
+                            .join()
+                            .unwrap_or_else(|_| json!({"k": "abort", "results": [], "crashed": true}))
+                    } else {
+                        run_job(&jobs[i])
+                    };
                     running.lock().unwrap()[tid] = None;
                     r["idx"] = json!(i);
                     let mut w = out.lock().unwrap();
